@@ -24,7 +24,7 @@ RULE = ("operations in the simplified form (tree of response-keyed fields, each 
         "deferred-returning-a-deferred / future already finished (or failed) when the executor receives it, top level written "
         "plainly, inside an inline fragment or as one fragment spread, outcome value | null | list | object | ResolverError | unexpected exception | "
         "unserialisable value, nullable / non-null / list typing): bounded-exhaustive over 1-2 top-level fields x 3 modes x "
-        "13 outcome shapes, then seeded random trees; every operation runs under all four configurations and, for the two "
+        "19 outcome shapes, then seeded random trees; every operation runs under all four configurations and, for the two "
         "deferred runtimes, under ALL completion orders when it has <= 4 (quick) / <= 6 (thorough) tasks, else FIFO + LIFO + "
         "random orders; plus REAL ThreadPoolExecutor pools with 1 and 2 workers, resolvers still in flight when callbacks are attached, "
         "nested futures submitted from pool tasks, hard 4 s timeout = failing case. "
@@ -34,6 +34,8 @@ RULE = ("operations in the simplified form (tree of response-keyed fields, each 
         "plus REAL schemas whose fields take arguments with awkward names (func, fn, args, kwargs, self, loop, ...) passed explicitly / by default. "
         "distinct non-trivial = distinct (operation, schedule) with >= 1 deferred task")
 ASSUMPTIONS = [
+    "a ResolverError raised while a value is completed, before any sub-resolver of that field ran, is the model's resolver-error event "
+    "(`rerr`); completions raising AFTER sub-resolvers were started are compared by the direct oracle only and are known finding E1",
     "completions are atomic: a task's completion and all callbacks/continuations it triggers run before the next completion "
     "(manual executor; asyncio loop drained to quiescence between completions)",
     "resolver outcomes do not depend on time or on other resolvers (resolver world fixed per response path)",
@@ -218,6 +220,9 @@ class Checker:
                 ctx.nontrivial((dumps(W.to_model(case), sort_keys=True), tuple(obs["choices"])))
         if not ctx.model_ok:
             return
+        if W.to_model(case).get("nomodel"):
+            ctx.stat("model-comparison-skipped(completion raises after sub-resolvers)")
+            return
         if obs.get("nomodel"):
             # an `async def` method starts its body only when the loop schedules it: call order differs from the callback model
             ctx.stat("model-comparison-skipped(async-def method)")
@@ -279,8 +284,13 @@ class Checker:
 
     # -- one case, fully ----------------------------------------------------
     def enough(self):
-        """stop generating once a few distinct failures are in hand (keeps a broken tree's run short)"""
-        return len([f for f in self.ctx.found if f["kind"] == "property"]) >= 3
+        """stop generating once a few distinct NEW failures are in hand (keeps a broken tree's run short)"""
+        import common
+        if not hasattr(self, "_known"):
+            self._known = common.load_known()
+        new = [f for f in self.ctx.found if f["kind"] == "property"
+               and not common.match_known(self.prop, f["signature"], self._known)]
+        return len(new) >= 3
 
     def check(self, case, rng=None):
         ctx = self.ctx
@@ -292,6 +302,13 @@ class Checker:
         if not fails:
             return True
         what, config = fails[0][0], fails[0][1]
+        ORPH = "completion-raises-after-sub-resolvers"
+        if ORPH in W.features(case):
+            # known class (finding E1): one stable signature, shrunk only the first time it is seen
+            sig = "%s:%s:%s:%s" % (self.prop.lower(), what, config, ORPH)
+            if any(f["signature"] == sig for f in ctx.found):
+                ctx.fail(sig, "", {})
+                return False
 
         def still(c):
             return any(f[0] == what and f[1] == config for f in self.failures_of(c, cap=24))
@@ -307,6 +324,8 @@ class Checker:
                     return True
                 small, sf = case, fails
         sig = "%s:%s:%s:%s" % (self.prop.lower(), what, config, "+".join(sorted(W.features(small))))
+        if ORPH in W.features(small):
+            sig = "%s:%s:%s:%s" % (self.prop.lower(), what, config, ORPH)
         ctx.fail(sig, "%s (%s)" % (sf[0][3], config),
                  {"case": small, "config": config, "schedule": sf[0][2], "what": what, "document": W.document(small)})
         return False
@@ -333,6 +352,12 @@ def small_outcomes():
         ("tonull", {"t": "int", "scalar": "trim"}, {"r": "ok", "v": "tonull"}),
         ("nn-tonull", {"t": "nn", "of": {"t": "int", "scalar": "trim"}}, {"r": "ok", "v": "tonull"}),
         ("list-nn-tonull", {"t": "list", "of": {"t": "nn", "of": {"t": "int", "scalar": "trim"}}}, {"r": "ok", "v": [1, "tonull", 2]}),
+        ("cerr", {"t": "int", "scalar": "trim"}, {"r": "ok", "v": "cerr"}),
+        ("nn-cerr", {"t": "nn", "of": {"t": "int", "scalar": "trim"}}, {"r": "ok", "v": "cerr"}),
+        ("list-cerr-item", {"t": "list", "of": {"t": "int", "scalar": "trim"}}, {"r": "ok", "v": [1, "cerr", 2]}),
+        ("lazy-fails", {"t": "list", "of": I}, {"r": "ok", "v": {"lazy": [1, 2], "fail": True}}),
+        ("abstract-cerr", dict(sub("deferred", "sync"), abstract=True), {"r": "ok", "v": "cerr"}),
+        ("abstract-ok", dict(sub("deferred", "sync"), abstract=True), {"r": "ok", "v": {"a": {"r": "ok", "v": 1}, "b": {"r": "ok", "v": 2}}}),
         ("obj-exc", sub("sync", "sync"), {"r": "ok", "v": {"a": {"r": "exc"}, "b": {"r": "ok", "v": 2}}}),
         ("list-obj", {"t": "list", "of": {"t": "obj", "fields": [{"key": "a", "mode": "deferred", "ty": I}]}},
          {"r": "ok", "v": [{"a": {"r": "ok", "v": 1}}, None, {"a": {"r": "rerr"}}]}),
